@@ -141,6 +141,7 @@ class Walker:
     def __init__(self, func_info, index, inline_depth=3, no_inline=()):
         self.no_inline = set(no_inline)
         self.localprocs = {}
+        self.loop_keys = {}
         self.proc_depth = 0
         self.fi = func_info
         self.index = index
@@ -373,7 +374,7 @@ class Walker:
         body = [s for s in st.body if not (isinstance(s, ast.Expr) and isinstance(s.value, ast.Constant))]
         if len(body) == 1 and isinstance(body[0], ast.Return) and body[0].value is not None:
             params = [a.arg for a in st.args.args]
-            self.env[st.name] = ('localfn', tuple(params), body[0].value, dict(self.env))
+            self.env[st.name] = ('localfn', tuple(params), body[0].value, ir.EnvBox(self.env))
             self.bind_ctx[st.name] = self.gen
         elif body and isinstance(body[-1], ast.Return) and body[-1].value is not None and \
                 not any(isinstance(n, (ast.Return, ast.Yield, ast.YieldFrom, ast.Nonlocal, ast.Global))
@@ -828,7 +829,22 @@ class Walker:
         if names_ and all(self.env.get(nm, ('x',))[0] == 'listacc' for nm in names_):
             return self.for_listacc(st, [self.t.lists[self.env[nm][1]] for nm in names_])
         it = self.ex(st.iter)
-        lid = self.fresh()
+        # loop fission: a second loop over the same (pure, self-derived) iterable in the same generation context walks
+        # the same iteration space, so it shares the first loop's identity
+        key = None
+        try:
+            nit = ir.norm(it)
+            if any(x == ('name', 'self') for x in ir.walk(nit)) and \
+                    not any(x[0] in ('sig', 'obj', 'acc', 'carry', 'final', 'listacc') for x in ir.walk(nit)):
+                key = (nit, self.gen)
+        except Exception:                                   # pragma: no cover
+            key = None
+        if key is not None and key in self.loop_keys:
+            lid = self.loop_keys[key]
+        else:
+            lid = self.fresh()
+            if key is not None:
+                self.loop_keys[key] = lid
         names = [n.id for n in ast.walk(st.target) if isinstance(n, ast.Name)]
         rev = False
         core = it
